@@ -5,9 +5,10 @@ import WebPkg.Driver.OpsSxg
 import WebPkg.Driver.OpsBundle
 import WebPkg.Driver.OpsIB
 import WebPkg.Driver.OpsBSig
+import WebPkg.Driver.OpsFault
 open WebPkg.Driver
 
-def handlers : List (String → List String → Option String) := [handleCbor, handleMice, handleSH, handleSxg, handleBundle, handleIB, handleBSig]
+def handlers : List (String → List String → Option String) := [handleCbor, handleMice, handleSH, handleSxg, handleBundle, handleIB, handleBSig, handleFault]
 
 def dispatch (op : String) (args : List String) : String :=
   match handlers.findSome? (fun h => h op args) with
